@@ -180,6 +180,7 @@ func checkC19(c *core.Ctx) error {
 	checkAvlClone(c, pkg)
 	// ---------------- R6 directions
 	checkAvlDirections(c, pkg)
+	checkAvlHeights(c, pkg)
 	// ---------------- R7 mirror twins
 	c.Rule("C19.R7", "the left- and right-handed procedures of the balance bookkeeping are mirror images (Left<->Right, balance factor k <-> -k, <= <-> >=): balance1/balance2, rotateLL/rotateRR, rotateLR/rotateRL, the two descent branches of insert and delete and the two only-child promotions", 6)
 	for _, pr := range [][2]string{{"balance1", "balance2"}, {"rotateLL", "rotateRR"}, {"rotateLR", "rotateRL"}} {
@@ -540,7 +541,8 @@ type anode struct {
 	left, right, parent *anode
 	opaque              bool
 	bal                 aint
-	h                   int // abstract height used by R7 (opaque subtrees)
+	h                   int  // abstract height used by R7 (opaque subtrees)
+	dead                bool // R8: a subtree superseded by the result of a (summarised) recursive call
 }
 
 // aint is an abstract integer: known or unknown.
@@ -568,6 +570,39 @@ type interp struct {
 	// lazy nondeterministic choice of unknown Balance values (-1,0,1)
 	choices []int
 	made    []int
+	bounds  []int // R8: number of alternatives of each choice made (default 3)
+	// R8: summarised (recursive) methods; the stub returns the results of one nondeterministically chosen contract outcome
+	stub   func(it *interp, name string, recv *aval, args []*aval) []*aval
+	nfresh int
+}
+
+// chooseN returns the next nondeterministic choice in [0,n).
+func (it *interp) chooseN(n int) int {
+	k := len(it.made)
+	v := 0
+	if k < len(it.choices) {
+		v = it.choices[k]
+	}
+	if v >= n {
+		v = n - 1
+	}
+	it.made = append(it.made, v)
+	it.bounds = append(it.bounds, n)
+	return v
+}
+
+// nextChoicesN is the odometer over choice vectors with per-position bounds.
+func nextChoicesN(made, bounds []int) []int {
+	for len(made) > 0 {
+		l := len(made) - 1
+		if made[l] < bounds[l]-1 {
+			r := append([]int{}, made...)
+			r[l]++
+			return r
+		}
+		made = made[:l]
+	}
+	return nil
 }
 
 // choose returns the next nondeterministic choice in {0,1,2}.
@@ -578,6 +613,7 @@ func (it *interp) choose() int {
 		v = it.choices[k]
 	}
 	it.made = append(it.made, v)
+	it.bounds = append(it.bounds, 3)
 	return v
 }
 
@@ -771,6 +807,41 @@ func (it *interp) eval(e ast.Expr) *aval {
 				return &aval{kind: 3, b: a >= b}
 			}
 		}
+	case *ast.CompositeLit:
+		if tv, ok := info.Types[x]; ok {
+			if n := core.NamedOf(tv.Type); n != nil && n.Obj().Name() == "AvlNode" {
+				it.nfresh++
+				nn := &anode{name: fmt.Sprintf("new%d", it.nfresh), bal: aint{true, 0}}
+				for _, el := range x.Elts {
+					kv, ok := el.(*ast.KeyValueExpr)
+					if !ok {
+						it.fail("undecided: positional AvlNode literal")
+						return nil
+					}
+					v := it.eval(kv.Value)
+					if v == nil {
+						return nil
+					}
+					switch types.ExprString(kv.Key) {
+					case "Value":
+						nn.key = v.s
+					case "Balance":
+						nn.bal = v.i
+					case "Left":
+						nn.left = v.p
+					case "Right":
+						nn.right = v.p
+					case "Parent":
+						nn.parent = v.p
+					case "Deleted":
+					default:
+						it.fail("undecided: AvlNode literal field %s", types.ExprString(kv.Key))
+						return nil
+					}
+				}
+				return &aval{kind: 0, p: nn}
+			}
+		}
 	case *ast.CallExpr:
 		rs := it.call(x)
 		if len(rs) >= 1 {
@@ -844,24 +915,32 @@ func (it *interp) call(call *ast.CallExpr) []*aval {
 		return nil
 	}
 	sig := fn.Type().(*types.Signature)
+	var fd *ast.FuncDecl
+	var recv *aval
 	if sig.Recv() == nil {
-		it.fail("undecided: call of function %s", fn.Name())
-		return nil
+		if fn.Pkg() == nil || fn.Pkg().Path() != core.RootPkg || fn.Name() != "NewAvlNode" {
+			it.fail("undecided: call of function %s", fn.Name())
+			return nil
+		}
+		fd = core.FindFunc(it.pkg, fn.Name())
+	} else {
+		rn := core.NamedOf(sig.Recv().Type())
+		if rn == nil || rn.Obj().Name() != "AvlNode" {
+			it.fail("undecided: call of %s", fn.FullName())
+			return nil
+		}
+		fd = core.FindMethod(it.pkg, "AvlNode", fn.Name())
 	}
-	rn := core.NamedOf(sig.Recv().Type())
-	if rn == nil || rn.Obj().Name() != "AvlNode" {
-		it.fail("undecided: call of %s", fn.FullName())
-		return nil
-	}
-	fd := core.FindMethod(it.pkg, "AvlNode", fn.Name())
 	if fd == nil {
 		it.fail("undecided: no body for %s", fn.Name())
 		return nil
 	}
-	sel := ast.Unparen(call.Fun).(*ast.SelectorExpr)
-	recv := it.eval(sel.X)
-	if recv == nil {
-		return nil
+	if sig.Recv() != nil {
+		sel := ast.Unparen(call.Fun).(*ast.SelectorExpr)
+		recv = it.eval(sel.X)
+		if recv == nil {
+			return nil
+		}
 	}
 	var args []*aval
 	for _, a := range call.Args {
@@ -871,12 +950,17 @@ func (it *interp) call(call *ast.CallExpr) []*aval {
 		}
 		args = append(args, v)
 	}
+	if it.stub != nil && sig.Recv() != nil {
+		if rs := it.stub(it, fn.Name(), recv, args); rs != nil || it.err != "" {
+			return rs
+		}
+	}
 	if it.depth > 6 {
 		it.fail("undecided: inlining depth exceeded at %s", fn.Name())
 		return nil
 	}
 	frame := map[types.Object]*aval{}
-	if len(fd.Recv.List[0].Names) > 0 {
+	if fd.Recv != nil && len(fd.Recv.List[0].Names) > 0 {
 		frame[info.Defs[fd.Recv.List[0].Names[0]]] = recv
 	}
 	k := 0
